@@ -346,6 +346,8 @@ func quoteStyleFor(st *Style) string {
 type Env struct {
 	Doc   map[string]any
 	Funcs map[string]func(args []any) (any, error)
+	// UnsignedTilde selects MySQL's unsigned 64-bit reading of ~ instead of two's complement.
+	UnsignedTilde bool
 }
 
 // ErrUnspecified is returned when the tree leaves the domain on which the property fixes a meaning
@@ -558,6 +560,9 @@ func Eval(e *E, row map[string]any, env *Env) (any, error) {
 		x, ok := v.(float64)
 		if !ok || !isInt(x) {
 			return nil, unspec("~ on %v", v)
+		}
+		if env != nil && env.UnsignedTilde {
+			return float64(^uint64(int64(x))), nil
 		}
 		return float64(^int64(x)), nil
 	case "bang", "not":
